@@ -384,3 +384,77 @@ def expr_cert(e, tg, deltas=False, en=None, mode=None):
         certs.append(c)
         allfull = allfull and full
     return certs, allfull
+
+
+# ---- stabiliser-generated averaging (fraction mode, last resort) -----------
+def _full_key(term):
+    key, sg = canon_key_sign(term)
+    return repr(key), term[0] * sg
+
+
+def pair_cert_stab(e1, e2, tg, en, cap=48):
+    """certificates for both sides of a fraction pair: every term is averaged
+    over the subgroup of automorphisms of its denominator-free remainder that
+    is generated by the stabilisers (as whole terms, fractions included) of
+    all terms of both sides with the same canonical remainder.  An operation
+    that symmetrises a term over such a subgroup (permute_num, symmetric
+    grouping) is then matched without averaging over the whole automorphism
+    group."""
+    info, gens = [], {}
+    for side, e in ((0, e1), (1, e2)):
+        for t in e:
+            elims, term = find_delta_elims(t, tg)
+            universe = []
+            for i in term_indices(term):
+                if i not in universe:
+                    universe.append(i)
+            m0, full, allbest = canonical_relabel(term, tg, en=en,
+                                                  collect=True)
+            t0 = rename_term(term, m0)
+            K = repr(canon_key(remainder_of(t0, en)))
+            ok = full and 0 < len(allbest) < 64
+            stab = []
+            if ok:
+                k0 = _full_key(t0)
+                for m in allbest:
+                    if _full_key(rename_term(term, m)) == k0:
+                        stab.append(tuple(sorted(
+                            ((m0[x], m[x]) for x in m0),
+                            key=lambda ab: ab[0].key)))
+            gens.setdefault(K, [])
+            for g in stab:
+                if g not in gens[K]:
+                    gens[K].append(g)
+            info.append((side, elims, term, universe, m0, K, ok))
+    groups = {}
+    for K, gs in gens.items():
+        elems = {g: dict(g) for g in gs}
+        frontier = list(elems.values())
+        while frontier and len(elems) <= cap:
+            new = []
+            for a in frontier:
+                for g in gs:
+                    gd = dict(g)
+                    c = {x: gd.get(a[x], a[x]) for x in a}
+                    key = tuple(sorted(c.items(), key=lambda ab: ab[0].key))
+                    if key not in elems:
+                        elems[key] = c
+                        new.append(c)
+            frontier = new
+        groups[K] = list(elems.values()) if len(elems) <= cap else []
+    out = ([], [])
+    for side, elims, term, universe, m0, K, ok in info:
+        maps, seen = [], set()
+        if ok:
+            for pi in groups.get(K, []):
+                m = {x: pi.get(m0[x], m0[x]) for x in m0}
+                k = _full_key(rename_term(term, m))
+                if k not in seen:
+                    seen.add(k)
+                    maps.append(m)
+        if not maps:
+            maps = [m0]
+        w = Fraction(1, len(maps))
+        out[side].append((elims, [(w, map_to_swaps(m, universe))
+                                  for m in maps]))
+    return out
